@@ -14,16 +14,16 @@ API = "pyairtouch.api"
 SOCK_CLS = "AirTouchSocket"
 
 
-def sock_fn(ctx, name: str) -> Fn:
+def sock_fn(ctx, name: str, precise: bool = False) -> Fn:
     m = ctx.repo.module(SOCKET)
     ctx.fn(m, f"{SOCK_CLS}.{name}")
-    return Fn(ctx.repo, m, f"{SOCK_CLS}.{name}")
+    return Fn(ctx.repo, m, f"{SOCK_CLS}.{name}", ctx.effects if precise else None)
 
 
-def fn_of(ctx, module_name: str, qual: str) -> Fn:
+def fn_of(ctx, module_name: str, qual: str, precise: bool = False) -> Fn:
     m = ctx.repo.module(module_name)
     ctx.fn(m, qual)
-    return Fn(ctx.repo, m, qual)
+    return Fn(ctx.repo, m, qual, ctx.effects if precise else None)
 
 
 def is_self_attr(e: ast.AST, attr: str) -> bool:
